@@ -469,6 +469,11 @@ findInsertionPointLinearSearch(
 
     NodeListIteratorType    current(begin);
 
+    // The nodes of one document are kept together, so once
+    // nodes of the new node's document have been passed, the
+    // first node of another document ends their group.
+    bool    fInOwnDocument = false;
+
     // Loop, looking for the node, or for a
     // node that's before the one we're adding...
     while(current != end)
@@ -483,6 +488,19 @@ findInsertionPointLinearSearch(
 
             break;
         }
+        else if (isNodeAfterPredicate.m_documentPredicate(*node, *child) == true)
+        {
+            if (fInOwnDocument == true)
+            {
+                // The group of the node's own document ends here,
+                // so this is the insertion point...
+                break;
+            }
+            else
+            {
+                ++current;
+            }
+        }
         else if (isNodeAfterPredicate(*node, *child) == false)
         {
             // We found the insertion point...
@@ -490,6 +508,8 @@ findInsertionPointLinearSearch(
         }
         else
         {
+            fInOwnDocument = true;
+
             ++current;
         }
     }
